@@ -2,7 +2,10 @@
 
 Theorems: PV/Props/C01.lean (branch selection tables: the emitted branch is taken iff the source condition is false, the
 set instruction computes the comparison, negation) over the tables regenerated from utils.py; PV/Props/C01Core.lean
-(compile-correctness of the model code generator for the core sub-language), when present.
+(compile-correctness of the model code generator `comp` for the core sub-language: `compile_correct_done`,
+`compile_correct_running`, and `negOk_of_real_tables`, which discharges their hypothesis for the regenerated suffix tables).
+Tie of the model generator to the real one (stream `incore`): the captured pre-allocation code of the real transpiler must
+equal `comp (flatten src)` instruction for instruction; `flatten` is compared with PV.Src executably.
 Oracle (differential, reported as such): the reference semantics PV.Src and the IC10 machine PV.IC10 — both trusted
 specifications, compiled into pvdrv — run the generated source program and the REAL emitted code against the same
 pseudo-random device environments and compare the effect traces (prefix rule for non-terminating programs).
@@ -13,12 +16,14 @@ from __future__ import annotations
 
 import json
 
-from . import common, progen, whole
+from . import c04, common, progen, whole
 from .common import Check, Driver, proof_stage, rng_for
 
 PROP = "C01"
 MODULE = "PV.Props.C01"
-THEOREMS = [f"PV.Props.C01.{t}" for t in ["tables_cover", "cmp_set_correct", "branch_neg_correct", "negated_table_negates", "branch_variant_table"]]
+MODULE_CORE = "PV.Props.C01Core"
+THEOREMS = ([f"PV.Props.C01.{t}" for t in ["tables_cover", "cmp_set_correct", "branch_neg_correct", "negated_table_negates", "branch_variant_table"]]
+            + ["PV.Core.sim"] + [f"PV.Props.C01Core.{t}" for t in ["compile_correct_done", "compile_correct_running", "pairsOk_sound", "real_pairs_negate", "negOk_of_real_tables"]])
 
 N = float
 
@@ -49,7 +54,7 @@ def run(tier: str, seed: int) -> int:
     chk.assumptions = ["PV.Src (reference semantics of the dialect) and PV.IC10 (machine) are hand-written trusted specifications; NaN and non-finite values are outside the compared domain",
                        "proved: branch-selection tables (all operators, all values of a linear order). NOT proved for the real generator: whole-program trace equality — explored by the executable oracle on generated programs",
                        "generated programs avoid the trigger patterns of the known findings (progen.Profile); witnesses of those findings are run separately"]
-    rep, br, audit = proof_stage(chk, MODULE, THEOREMS)
+    rep, br, audit = proof_stage(chk, MODULE_CORE, THEOREMS, extra_targets=[MODULE])
     drv = Driver()
     r = rng_for(PROP, seed)
     budget = whole.QUICK_BUDGET if tier == "quick" else whole.THOROUGH_BUDGET
@@ -86,6 +91,45 @@ def run(tier: str, seed: int) -> int:
                     break
         if len(failures) >= 3:
             break
+    # --- the proved model generator against the real one (stream `incore`) -------------------------------------------
+    # For programs of the core sub-language the REAL pre-allocation code must be, instruction for instruction (registers
+    # renamed by first occurrence, labels as the no-op lines they occupy, jump targets as line numbers), `comp (flatten src)`;
+    # `compile_correct_done/running` then speak about the real code.  `flatten` itself (unproved) is run under the core
+    # reference semantics against PV.Src on the same environment.
+    n_core = 150 if tier == "quick" else 6000
+    diffs = []
+    for i in range(n_core):
+        if len(failures) >= 3:
+            break
+        g, prog, src, pool = whole.gen_program(r, "incore")
+        opts = whole.default_opts(append_version=False)
+        res, cap = whole.compile_captured(src, opts)
+        if "error" in res or not cap.lines:
+            chk.bump("incore:compile-error")
+            continue
+        vtext = c04.texts(cap)[0]
+        v = drv.call(cmd="core-compare", prog=progen.jprogram(prog), text=vtext, seed=r.randrange(1 << 30), fuel=budget["fuel"], pool=pool)
+        chk.bump("incore:" + v["verdict"])
+        if v["verdict"] == "same":
+            chk.count(("incore", src), nontrivial=True)
+        elif v["verdict"] in ("differ", "length", "parse-error"):
+            # correspondence broken for this program: is the property broken on it?
+            envs = [r.randrange(1 << 30) for _ in range(8)]
+            st, d = whole.judge_equiv(drv, prog, src, pool, opts, envs, budget)
+            if st == "bad":
+                failures.append({"what": f"real code differs from the proved model generator's and from the source: {d['verdict']}", "profile": "incore", "src": src,
+                                 "prog": progen.jprogram(prog), "opts": opts, "env_seed": d["env_seed"], "pool": pool, "budget": budget,
+                                 "verdict": {k: x for k, x in d.items() if k != "code"}, "code": d.get("code")})
+            else:
+                diffs.append({"src": src, "verdict": {k: x for k, x in v.items() if k not in ("model_code", "real_code")},
+                              "model_code": v.get("model_code"), "real_code": v.get("real_code")})
+        elif v["verdict"] in ("flatten-disagrees", "negok-false"):
+            # model-internal: the unproved flattening step does not reproduce PV.Src on this program; the chain through the theorem
+            # does not cover it (the direct oracle above still does).  Reported in the evidence, no statement about /repo.
+            chk.coverage.setdefault("model_internal", []).append({"src": src, "detail": v.get("detail", v["verdict"])})
+    if diffs:
+        chk.broken.append(f"correspondence `comp (flatten src)` = real pre-allocation code fails on {len(diffs)} core programs; first: {json.dumps(diffs[0]['verdict'])}")
+        chk.coverage["core_correspondence_failures"] = diffs[:3]
     chk.coverage["features"] = dict(sorted(feats.items()))
     # witnesses of the known findings
     known_ids = {f["id"] for f in chk.known}
